@@ -12,6 +12,7 @@ static inline void sym_state(HydroVariables &s) {
 __attribute__((noinline)) void h_f1_flux_application(void) {
   Hydro &hy = g_uh.h;
   const_cast<double &>(hy._gamma) = nondet_double(); __CPROVER_assume((hy._gamma > 1.) & (hy._gamma <= 2.));
+  new (const_cast<HLLCRiemannSolver *>(&hy._riemann_solver)) HLLCRiemannSolver(hy._gamma);     // real solver object (its flux function is stubbed in Engine B, real in native replays)
   union U2 { HydroVariables v[4]; U2() {} ~U2() {} } u;
   HydroVariables &L = u.v[0], &R = u.v[1], &L2 = u.v[2], &R2 = u.v[3];
   sym_state(L); sym_state(R);
